@@ -17,6 +17,9 @@ Copy i uses two letters (p, q); the kinds of classes of a copy:
              pack (X = p A, A = eps + p A + q A): a chain of verifications with packs
   variant R: as F with bD = q q X: a product with a repeated child class (T, T, X)
   variant N: as M, with A specified down to atoms (A = eps + p A + q A): no class verified by brute force
+  variant W: C = Ev q Ps (even p-words, q, p-words) with Ps = Ev + Od, Od = p Ev in the outer pack and Ev verified by a strategy whose
+             pack knows Ev only from the rules it is used in (a factory) and Ps = eps + p Ps: expanding Ev needs the reverse rule
+             Ev = Ps - Od and gives Ps - a class of the original specification - another rule than it had
   variant Z: as Y, but the pack offered for C keeps its strategies in an expansion set (verification strategies first in pack order)
   variant S: C = (p|q)+ = X + swap(X): a union rule with the *same* child class twice, told apart by the child index only
 Root R = g + C1 + ... + Ck  (`g` a one-letter atom). Everything the oracle needs is generated directly from these
@@ -35,7 +38,7 @@ from comb_spec_searcher import (
 from comb_spec_searcher.strategies.constructor.base import Constructor
 from comb_spec_searcher.exception import StrategyDoesNotApply
 from comb_spec_searcher.strategies.rule import NonBijectiveRule
-from comb_spec_searcher.strategies.strategy import Strategy, VerificationStrategy
+from comb_spec_searcher.strategies.strategy import Strategy, StrategyFactory, VerificationStrategy
 from upword import W
 
 LETTERS = [("a", "b"), ("c", "d"), ("e", "f")]
@@ -82,6 +85,10 @@ def _words(name, n, sig):
         return [t for t in _tails(p, q, n) if q in t]
     if kind == "gPq":
         return ["g" + t for t in _words("Pq" + k, n - 1, sig)] if n >= 1 else []
+    if kind == "Ev":
+        return [p * n] if n % 2 == 0 else []
+    if kind == "Od":
+        return [p * n] if n % 2 == 1 else []
     if kind == "A":
         return list(_tails(p, q, n))
     if kind == "Eps":
@@ -95,6 +102,8 @@ def _words(name, n, sig):
             return _words("Pq" + k, n, sig)
         if v in ("M", "N"):
             return [w[:i] + w[i].upper() + w[i + 1:] for w in _tails(p, q, n) for i in range(n)]
+        if v == "W":
+            return [p * (2 * i) + q + p * (n - 1 - 2 * i) for i in range(n) if n - 1 - 2 * i >= 0]
         if v == "Q":
             return _words("Aq" + k, n, sig) + _words("Y" + k, n, sig) + _words("gPq" + k, n, sig)
         if v == "S":
@@ -327,6 +336,8 @@ class GBrute(VerificationStrategy):
             return False
         if c.name[:-1] == "A" and c.sig[int(c.name[-1])] == "N":
             return False  # in an N copy A is specified by rules
+        if c.name[:-1] == "C" and c.sig[int(c.name[-1])] == "W":
+            return False  # in a W copy C is decomposed by the outer pack
         if c.name[:-1] == "X" and c.sig[int(c.name[-1])] == "K":
             return type(self) is GPackVer2  # in a K copy X is verified only by the strategy that offers the second pack
         return type(self) is not GPackVer2
@@ -370,6 +381,8 @@ def inner_pack(sig):
     union, prod = {}, {}
     sym, point = {}, {}
     for k, v in ((str(i), x) for i, x in enumerate(sig)):
+        if v == "W":
+            continue  # decomposed by the outer pack (w_tables)
         if v == "S":
             sym["C" + k] = ("X" + k,)
             continue
@@ -450,20 +463,85 @@ class GPackVer(GBrute):
         return inner_pack(c.sig)
 
 
+def w_tables(sig):
+    """the tables of the W copies: (split Ps = Ev + Od, outer products, peel Ps = eps + p Ps, factor pPs = p Ps)"""
+    split, prod0, peel, factor = {}, {}, {}, {}
+    for k, v in ((str(i), x) for i, x in enumerate(sig)):
+        if v == "W":
+            split["Ps" + k] = ("Ev" + k, "Od" + k)
+            prod0["C" + k] = ("Ev" + k, "T" + k, "Ps" + k)
+            prod0["Od" + k] = ("Y" + k, "Ev" + k)
+            peel["Ps" + k] = ("Eps" + k, "pPs" + k)
+            factor["pPs" + k] = ("Y" + k, "Ps" + k)
+    return split, prod0, peel, factor
+
+
+class GUsedIn(StrategyFactory):
+    """for a class, the ready rules (of the given union and product tables) in which it occurs on the right-hand side"""
+
+    def __init__(self, union, prod):
+        self.union = {k: tuple(v) for k, v in dict(union).items()}
+        self.prod = {k: tuple(v) for k, v in dict(prod).items()}
+
+    def __call__(self, c):
+        if not isinstance(c, GL):
+            return
+        for strat in (GUnion(self.union), GProd(self.prod)):
+            for parent, children in sorted(strat.table.items()):
+                if c.name in children:
+                    yield strat(GL(parent, c.sig))
+
+    def __str__(self):
+        return "used in"
+
+    def __repr__(self):
+        return f"GUsedIn({sorted(self.union.items())},{sorted(self.prod.items())})"
+
+    @classmethod
+    def from_dict(cls, d):
+        return cls(d["union"], d["prod"])
+
+    def to_jsonable(self):
+        d = super().to_jsonable()
+        d["union"] = {k: list(v) for k, v in self.union.items()}
+        d["prod"] = {k: list(v) for k, v in self.prod.items()}
+        return d
+
+
+def w_pack(sig):
+    split, prod0, peel, factor = w_tables(sig)
+    return StrategyPack(initial_strats=[GUsedIn(split, {k: v for k, v in prod0.items() if k.startswith("C")})], inferral_strats=[],
+                        expansion_strats=[[GUnion(peel), GProd(factor)]], ver_strats=[AtomStrategy()], name="wpack")
+
+
+class GEvenVer(GBrute):
+    """verifies Ev in the W copies and offers a pack that knows Ev only from the rules it is used in"""
+
+    def formal_step(self):
+        return "even words, verified with a pack"
+
+    def pack(self, c):
+        return w_pack(c.sig)
+
+
 def build(cfg):
     """(root, outer pack, rule database) for cfg['gram'] = list of variants, one per copy"""
     from specrun import DBS
 
     sig = "".join(cfg["gram"])
+    split, prod0, peel, factor = w_tables(sig)
+    wstrats = [GProd(prod0), GUnion(split)] if "W" in sig else []
     if cfg.get("gram_flat"):  # the inner strategies applied directly: no class verified with a pack
         inner = inner_pack(sig)
-        flat = StrategyPack(initial_strats=[GUnion({"R": ("G",) + tuple("C" + str(k) for k in range(len(sig)))})] + list(inner.initial_strats),
+        flat = StrategyPack(initial_strats=[GUnion({"R": ("G",) + tuple("C" + str(k) for k in range(len(sig)))})] + list(inner.initial_strats)
+                            + wstrats + ([GUnion(peel), GProd(factor)] if wstrats else []),
                             inferral_strats=[], expansion_strats=[], ver_strats=[AtomStrategy(), GBrute(["X", "Pq", "Ps", "A"])], name="flat")
         if cfg["db"] == "RuleDBForest":
             from comb_spec_searcher.rule_db import RuleDBForest
 
             return GL("R", sig), flat, RuleDBForest(reverse=True)
         return GL("R", sig), flat, DBS[cfg["db"]]()
-    outer = StrategyPack(initial_strats=[GUnion({"R": ("G",) + tuple("C" + str(k) for k in range(len(sig)))})], inferral_strats=[],
-                         expansion_strats=[], ver_strats=[AtomStrategy(), GPackVer(["C"])], name="outer")
+    outer = StrategyPack(initial_strats=[GUnion({"R": ("G",) + tuple("C" + str(k) for k in range(len(sig)))})] + wstrats[:1], inferral_strats=[],
+                         expansion_strats=[wstrats[1:]] if wstrats else [],
+                         ver_strats=[AtomStrategy(), GPackVer(["C"])] + ([GEvenVer(["Ev"])] if wstrats else []), name="outer")
     return GL("R", sig), outer, DBS[cfg["db"]]()
